@@ -28,7 +28,8 @@ COQ = os.path.join(VERIF, "coq")
 GEN = os.path.join(COQ, "gen")
 BUILD = os.path.join(VERIF, "build")
 REPLAYS = os.path.join(VERIF, "replays")
-EVIDENCE = os.path.join(VERIF, "evidence")
+# evidence of runs against a scratch copy (VERIF_REPO set, e.g. seeded mutants) must never overwrite the real evidence
+EVIDENCE = os.path.join(VERIF, "evidence") if REPO == "/repo" else os.path.join(BUILD, "evidence-scratch")
 PY = "/venv/bin/python"
 NPROC = int(os.environ.get("VERIF_JOBS", "16"))
 
